@@ -44,7 +44,15 @@ Lemma ps_multi b r f acc : (0x80 <=? bN b)%N = true ->
   | Some n => p_string f (skipn n (b :: r)) (rev (firstn n (b :: r)) ++ acc)
   | None => None
   end.
-Proof. destruct b; intros H; try discriminate; reflexivity. Qed.
+Proof.
+  intros H.
+  assert (E : ps_step (b :: r) acc =
+              match decode_multi (b :: r) with
+              | Some n => Some (inr (skipn n (b :: r), rev (firstn n (b :: r)) ++ acc))
+              | None => None
+              end) by (destruct b; try discriminate H; reflexivity).
+  cbn [p_string]. rewrite E. destruct (decode_multi (b :: r)); reflexivity.
+Qed.
 
 (* decode_multi looks only at the bytes it accepts *)
 Lemma decode_multi_prefix s k : decode_multi s = Some k ->
